@@ -88,7 +88,7 @@ def join(a, b):
                 for x in (a.items or ()) + (b.items or ()):
                     e = join(e, x)
                 return AV("list", a.alias | b.alias, elem=join(elem, e))
-        flags = (a.flags & b.flags) | ((a.flags | b.flags) & {"uncertain", "none", "shallow", "unchecked-view"})
+        flags = (a.flags & b.flags) | ((a.flags | b.flags) & {"uncertain", "none", "shallow", "unchecked-view", "via-slice", "may-slice"})
         if a.kind == "scalar":
             flags = a.flags & b.flags
         ref = a.ref if a.ref == b.ref else None
@@ -97,11 +97,12 @@ def join(a, b):
             alts = (list(a.ref[1]) if a.ref[0] == "choice" else [a]) + (list(b.ref[1]) if b.ref[0] == "choice" else [b])
             ref = ("choice", tuple(alts))
         return AV(a.kind, a.alias | b.alias, elem, items, flags, ref)
-    # scalar joined with something: keep the richer one (None/int defaults)
+    # scalar joined with something: keep the richer one (None/int defaults) -- but an index that MAY be a slice object
+    # (rows = slice(i, j) on one path, an index array on the other) must stay known as such: basic slicing yields a view
     if a.kind == "scalar":
-        return b
+        return b.with_(flags=b.flags | {"may-slice"}) if "slice" in a.flags else b
     if b.kind == "scalar":
-        return a
+        return a.with_(flags=a.flags | {"may-slice"}) if "slice" in b.flags else a
     e = join(content(a), content(b))
     return AV("unknown", a.alias | b.alias, elem=e,
               flags=(a.flags | b.flags) & {"uncertain"})
@@ -890,7 +891,7 @@ class _State:
                 self.ev(x, env) if not isinstance(x, ast.Slice) else None
             return "UNKNOWN", None
         v = self.ev(sl, env)
-        if "slice" in v.flags:
+        if "slice" in v.flags or "may-slice" in v.flags:
             return "SLICE", v
         if v.kind in ("col", "list"):
             return "ADV", v
@@ -1365,7 +1366,7 @@ class _State:
         if beh == "fresh":
             return col()
         if beh == "scalar":
-            return SCALAR
+            return AV("scalar", flags={"slice"}) if d == "builtins.slice" else SCALAR
         if beh == "opaque":
             return AV("unknown", {"EXT"})
         if beh == "alias0":
